@@ -29,8 +29,9 @@ PARTIAL = ["C10_writer_accepts (validate accepts => the writer encodes) is refut
            "C10_writer_accepts_partial for the default writer under the side condition wdom (floats convert, absent default-less fields accept null "
            "the way _accepts_null tests it -- implied by validate for parse_schema's schemas: C10_absent_field_agrees --, the validator answers on "
            "every branch searched)",
-           "elab_typed's float side condition floats_ok (range of d2s/z2d outputs, rests on SpecFloat.binary_round) is evaluated in-model on every "
-           "accepted case, not proved",
+           "the input-side hypotheses data_ok (wf_py, pyfloats_ok, wf_schema/wf_env, dflt/env_floats_ok) of C10_accepted_typed / "
+           "C10_accepted_roundtrip are evaluated in-model on every case; floats_ok of the elaborated value is derived in Rocq "
+           "(proofs/ElabFloats.v over proofs/FloatProofs.v) and still printed as a cross-check",
            "C10_gate is stated for the model's Writer.write (validation precedes encoding); that no byte reaches the stream is checked on the "
            "implementation by corr:validate-vs-writer (the container model belongs to C04-C07)"]
 
@@ -179,6 +180,11 @@ def check_writer(ctx, c, m, parts, stats, good):
                           signature="C10:validate-vs-writer:accepted-not-round-tripped", found_input=True,
                           detail="validate returned True, the writer encoded, but the value read back is not the normalised datum")
             return
+        mfields = (m or "").split("|")
+        if len(mfields) > 5 and mfields[5] != "hyp":
+            ctx.violation("side-condition", c.to_json(), impl=None, model=mfields[5], signature="C10:side-condition:data_ok",
+                          found_input=False, kind="broken-obligation",
+                          detail="a hypothesis of C10_accepted_typed (wf_py / pyfloats_ok / wf_schema / wf_env / dflt_floats_ok) is false on a generated case")
         if mw.startswith("W:"):
             if mw[2:].split(";")[0] != w[1].hex():
                 ctx.violation("corr:validate-vs-writer", c.to_json(), impl=w[1].hex()[:600], model=mw[:600],
